@@ -251,6 +251,10 @@ def parseOpPair (op res : List String) : Option Parsed :=
 def parseCorePair (op res : List String) : Option (Call × Resp) :=
   match op, res with
   | ["init"], [rv] => do pure ⟨.initLib, { rv := ← parseNat? rv }⟩
+  -- C_Initialize with locking enabled (OS mutexes / the harness's scheduler callbacks / index-handle callbacks): the same call as far as the model is concerned
+  | ["initos"], [rv] => do pure ⟨.initLib, { rv := ← parseNat? rv }⟩
+  | ["initmx"], [rv] => do pure ⟨.initLib, { rv := ← parseNat? rv }⟩
+  | ["initix"], [rv] => do pure ⟨.initLib, { rv := ← parseNat? rv }⟩
   | ["fini"], [rv] => do pure ⟨.finiLib, { rv := ← parseNat? rv }⟩
   | ["slots"], rv :: n :: rows => do
       let (ns, vs) ← parseSlotRows rows
